@@ -4,6 +4,7 @@ mod c01;
 mod c02;
 mod c03;
 mod c04;
+mod c05;
 mod c06;
 mod c07;
 mod c09;
@@ -96,6 +97,7 @@ fn main() {
         "C02" => c02::run(&tier),
         "C03" => c03::run(&tier),
         "C04" => c04::run(&tier),
+        "C05" => c05::run(&tier),
         "C06" => c06::run(&tier),
         "C07" => c07::run(&tier),
         "C09" => c09::run(&tier),
